@@ -97,10 +97,10 @@ class Cx:
         self.calls_resolved = 0
         self.functions_analysed: set[str] = set()
 
-    def summary(self, q, obligation: str = "-", full: bool = False):
+    def summary(self, q, obligation: str = "-", full: bool = False, bind: dict | None = None):
         fn = self.model.function(q, obligation) if isinstance(q, str) else q
         self.functions_analysed.add(fn.qualname)
-        s = self.S.summary(fn, full=full)
+        s = self.S.summary(fn, full=full, bind=bind)
         if s.truncated:
             raise AnalysisError(f"path explosion in {fn.qualname}", obligation)
         return s
